@@ -138,3 +138,10 @@ def cases(tier, seed, ctx=None):
             for k in range(1, len(base)):
                 ops = base[:k] + [STOP] + base[k:]
                 yield ("copier", [c, 1, 3, 0, -1, NOFAIL, ops, [14, 5]], "seq-stop")
+    # sources far larger than memory (their bytes are a function of the position): ranges that span 2 GiB and more, with an explicit
+    # end and to the end; watched for a few turns, then stopped
+    G2 = 2 ** 31
+    for size, frm, to in ((G2 + 70000, 0, G2 + 69999), (G2 + 70000, 1000, G2 + 2999), (3 * G2, 5, -1), (2 ** 33 + 9, 7, 2 ** 32 + 6), (2 ** 32 + 100, 0, 2 ** 32 + 99),
+                          (2 ** 40, 2 ** 39, -1), (G2 + 70000, G2 + 1, G2 + 50), (100000, 10, 90000), (G2 - 1, 0, G2 - 2), (G2, 0, G2 - 1)):
+        for bs in (65536, 4096, 1000):
+            yield ("copierbig", [size, bs, frm, to, rng.range(1, 6)], "ranges-of-2-GiB-and-more")
